@@ -208,15 +208,20 @@ func (llb *Buffer) ReadFrom(r io.Reader) (n int64, err error) {
 		}
 		n += int64(m)
 		b = b[:m]
-		if err == io.EOF {
+		// The reader is allowed to return some bytes along with an error (EOF included),
+		// those bytes have been counted and must be kept. On the other hand, an empty
+		// node must not be linked, otherwise IsEmpty would lie.
+		if m > 0 {
+			llb.pushBack(&node{buf: b})
+		} else {
 			bsPool.Put(b)
+		}
+		if err == io.EOF {
 			return n, nil
 		}
 		if err != nil {
-			bsPool.Put(b)
 			return
 		}
-		llb.pushBack(&node{buf: b})
 	}
 }
 
